@@ -140,6 +140,7 @@ class _Inject:
     def __enter__(self):
         import pulp
 
+        core.SolverWatch.injecting += 1
         self.saved = (pulp.HiGHS_CMD, pulp.LpSolverDefault)
         real_cbc = lambda: pulp.PULP_CBC_CMD(msg=False)
         RealCBC = pulp.PULP_CBC_CMD
@@ -174,6 +175,7 @@ class _Inject:
         import pulp
 
         pulp.HiGHS_CMD, pulp.LpSolverDefault = self.saved
+        core.SolverWatch.injecting -= 1
 
 
 def run_case(case, rec):
